@@ -22,20 +22,20 @@ OpsWeak == OpsCore \cup {"Downgrade", "Upgrade", "UpgradeStored", "WeakClone", "
 
 OpsWeakQ == {"New", "CloneRoot", "DropRoot", "AdoptStore", "TakeUnadopt", "DropStored", "Store",
              "Downgrade", "Upgrade", "UpgradeStored", "WeakDrop", "StoreWeak"}
-CapsS == [strong |-> 2, stored |-> 1, rec |-> 1, weak |-> 1, storedW |-> 1, over |-> TRUE, elide |-> TRUE, scripted |-> 1]
-CapsE == [strong |-> 2, stored |-> 1, rec |-> 1, weak |-> 1, storedW |-> 1, over |-> FALSE, elide |-> TRUE, scripted |-> 1]
-CapsCE == [strong |-> 2, stored |-> 1, rec |-> 1, weak |-> 1, storedW |-> 1, over |-> FALSE, elide |-> TRUE, scripted |-> 1]
-CapsCE3 == [strong |-> 3, stored |-> 1, rec |-> 1, weak |-> 1, storedW |-> 1, over |-> FALSE, elide |-> TRUE, scripted |-> 1]
-CapsE3 == [strong |-> 3, stored |-> 2, rec |-> 2, weak |-> 1, storedW |-> 1, over |-> FALSE, elide |-> TRUE, scripted |-> 1]
-CapsS3 == [strong |-> 3, stored |-> 2, rec |-> 2, weak |-> 1, storedW |-> 1, over |-> TRUE, elide |-> TRUE, scripted |-> 1]
-Caps2 == [strong |-> 3, stored |-> 2, rec |-> 2, weak |-> 1, storedW |-> 1, over |-> FALSE, elide |-> FALSE, scripted |-> 1]
-CapsQ == [strong |-> 2, stored |-> 1, rec |-> 1, weak |-> 1, storedW |-> 1, over |-> FALSE, elide |-> FALSE, scripted |-> 1]
-CapsM == [strong |-> 3, stored |-> 1, rec |-> 1, weak |-> 1, storedW |-> 1, over |-> FALSE, elide |-> FALSE, scripted |-> 1]
-CapsW == [strong |-> 2, stored |-> 1, rec |-> 1, weak |-> 1, storedW |-> 1, over |-> FALSE, elide |-> FALSE, scripted |-> 1]
-CapsWM == [strong |-> 2, stored |-> 1, rec |-> 1, weak |-> 2, storedW |-> 1, over |-> FALSE, elide |-> FALSE, scripted |-> 1]
-CapsT == [strong |-> 2, stored |-> 1, rec |-> 1, weak |-> 1, storedW |-> 1, over |-> FALSE, elide |-> FALSE, scripted |-> 1]
-CapsWT == [strong |-> 2, stored |-> 1, rec |-> 1, weak |-> 1, storedW |-> 1, over |-> FALSE, elide |-> FALSE, scripted |-> 1]
-Caps3 == [strong |-> 3, stored |-> 1, rec |-> 1, weak |-> 1, storedW |-> 1, over |-> FALSE, elide |-> FALSE, scripted |-> 1]
+CapsS == [strong |-> 2, stored |-> 1, rec |-> 1, weak |-> 1, storedW |-> 1, over |-> TRUE, elide |-> TRUE, scripted |-> 1, edges |-> 99]
+CapsE == [strong |-> 2, stored |-> 1, rec |-> 1, weak |-> 1, storedW |-> 1, over |-> FALSE, elide |-> TRUE, scripted |-> 1, edges |-> 99]
+CapsCE == [strong |-> 2, stored |-> 1, rec |-> 1, weak |-> 1, storedW |-> 1, over |-> FALSE, elide |-> TRUE, scripted |-> 1, edges |-> 99]
+CapsCE3 == [strong |-> 3, stored |-> 1, rec |-> 1, weak |-> 1, storedW |-> 1, over |-> FALSE, elide |-> TRUE, scripted |-> 1, edges |-> 99]
+CapsE3 == [strong |-> 3, stored |-> 2, rec |-> 2, weak |-> 1, storedW |-> 1, over |-> FALSE, elide |-> TRUE, scripted |-> 1, edges |-> 99]
+CapsS3 == [strong |-> 3, stored |-> 2, rec |-> 2, weak |-> 1, storedW |-> 1, over |-> TRUE, elide |-> TRUE, scripted |-> 1, edges |-> 99]
+Caps2 == [strong |-> 3, stored |-> 2, rec |-> 2, weak |-> 1, storedW |-> 1, over |-> FALSE, elide |-> FALSE, scripted |-> 1, edges |-> 99]
+CapsQ == [strong |-> 2, stored |-> 1, rec |-> 1, weak |-> 1, storedW |-> 1, over |-> FALSE, elide |-> FALSE, scripted |-> 1, edges |-> 99]
+CapsM == [strong |-> 3, stored |-> 1, rec |-> 1, weak |-> 1, storedW |-> 1, over |-> FALSE, elide |-> FALSE, scripted |-> 1, edges |-> 99]
+CapsW == [strong |-> 2, stored |-> 1, rec |-> 1, weak |-> 1, storedW |-> 1, over |-> FALSE, elide |-> FALSE, scripted |-> 1, edges |-> 99]
+CapsWM == [strong |-> 2, stored |-> 1, rec |-> 1, weak |-> 2, storedW |-> 1, over |-> FALSE, elide |-> FALSE, scripted |-> 1, edges |-> 99]
+CapsT == [strong |-> 2, stored |-> 1, rec |-> 1, weak |-> 1, storedW |-> 1, over |-> FALSE, elide |-> FALSE, scripted |-> 1, edges |-> 99]
+CapsWT == [strong |-> 2, stored |-> 1, rec |-> 1, weak |-> 1, storedW |-> 1, over |-> FALSE, elide |-> FALSE, scripted |-> 1, edges |-> 99]
+Caps3 == [strong |-> 3, stored |-> 1, rec |-> 1, weak |-> 1, storedW |-> 1, over |-> FALSE, elide |-> FALSE, scripted |-> 1, edges |-> 99]
 VPinned == [bust |-> "out", loop |-> "split", consume |-> "ignore"]
 VFixed  == [bust |-> "owned", loop |-> "ignored", consume |-> "purge"]
 VFixAB  == [bust |-> "owned", loop |-> "ignored", consume |-> "ignore"]
@@ -54,8 +54,8 @@ OpsConsume == {"New", "CloneRoot", "DropRoot", "AdoptStore", "TakeUnadopt", "Sto
 VPurge == [bust |-> "owned", loop |-> "ignored", consume |-> "purge"]
 OpsOrder == {"New", "CloneRoot", "DropRoot", "AdoptStore", "TakeUnadopt", "Downgrade", "WeakDrop", "Upgrade",
              "AdoptSame", "UnadoptSame"}
-CapsO == [strong |-> 3, stored |-> 2, rec |-> 2, weak |-> 1, storedW |-> 1, over |-> FALSE, elide |-> FALSE, scripted |-> 1]
-CapsO3 == [strong |-> 2, stored |-> 1, rec |-> 1, weak |-> 0, storedW |-> 0, over |-> FALSE, elide |-> FALSE, scripted |-> 1]
+CapsO == [strong |-> 3, stored |-> 2, rec |-> 2, weak |-> 1, storedW |-> 1, over |-> FALSE, elide |-> FALSE, scripted |-> 1, edges |-> 99]
+CapsO3 == [strong |-> 2, stored |-> 1, rec |-> 1, weak |-> 0, storedW |-> 0, over |-> FALSE, elide |-> FALSE, scripted |-> 1, edges |-> 99]
 OpsStd == {"New", "CloneRoot", "CloneStored", "DropRoot", "Store", "Take", "DropStored",
            "Downgrade", "Upgrade", "UpgradeStored", "WeakClone", "WeakDrop", "StoreWeak", "TakeWeak",
            "TryUnwrap", "GetMut", "MakeMut", "MakeMutS", "IntoRaw", "FromRaw", "IncStrong", "DecStrong", "DropDetached",
@@ -64,15 +64,17 @@ OpsStdM == OpsStd \cup {"Misc"}
 OpsStdQ == {"New", "CloneRoot", "DropRoot", "Store", "DropStored", "Downgrade", "Upgrade", "WeakDrop", "StoreWeak",
             "TryUnwrap", "GetMut", "MakeMut", "IntoRaw", "FromRaw", "DecStrong", "DropDetached"}
 OpsGraph == {"New", "Edge", "DropRoot"}
-CapsG == [strong |-> 99, stored |-> 1, rec |-> 1, weak |-> 0, storedW |-> 0, over |-> FALSE, elide |-> FALSE, scripted |-> 1]
+CapsG == [strong |-> 99, stored |-> 1, rec |-> 1, weak |-> 0, storedW |-> 0, over |-> FALSE, elide |-> FALSE, scripted |-> 1, edges |-> 99]
+CapsG6 == [strong |-> 99, stored |-> 1, rec |-> 1, weak |-> 0, storedW |-> 0, over |-> FALSE, elide |-> FALSE, scripted |-> 1, edges |-> 6]
+CapsG2 == [strong |-> 99, stored |-> 2, rec |-> 2, weak |-> 0, storedW |-> 0, over |-> FALSE, elide |-> FALSE, scripted |-> 1, edges |-> 99]
 OpsBuild == {"New", "CloneRoot", "DropRoot", "AdoptStore", "TakeUnadopt", "Store"}
-CapsB == [strong |-> 2, stored |-> 1, rec |-> 1, weak |-> 0, storedW |-> 0, over |-> FALSE, elide |-> FALSE, scripted |-> 1]
+CapsB == [strong |-> 2, stored |-> 1, rec |-> 1, weak |-> 0, storedW |-> 0, over |-> FALSE, elide |-> FALSE, scripted |-> 1, edges |-> 99]
 OpsWeak3 == {"New", "CloneRoot", "DropRoot", "AdoptStore", "Downgrade", "StoreWeak", "WeakDrop", "Upgrade"}
 OpsDtorQ == {"New", "CloneRoot", "DropRoot", "AdoptStore", "Downgrade", "StoreWeak"}
 OpsCoreQ == {"New", "CloneRoot", "DropRoot", "Store", "Take", "DropStored", "AdoptStore", "TakeUnadopt", "Adopt"}
 OpsConsumeQ == {"New", "CloneRoot", "DropRoot", "AdoptStore", "Downgrade", "WeakDrop",
                 "TryUnwrap", "MakeMut", "IntoRaw", "FromRaw", "DecStrong", "DropDetached"}
-CapsL == [strong |-> 4, stored |-> 2, rec |-> 2, weak |-> 1, storedW |-> 1, over |-> FALSE, elide |-> FALSE, scripted |-> 1]
+CapsL == [strong |-> 4, stored |-> 2, rec |-> 2, weak |-> 1, storedW |-> 1, over |-> FALSE, elide |-> FALSE, scripted |-> 1, edges |-> 99]
 OpsDtor == {"New", "CloneRoot", "DropRoot", "Store", "AdoptStore", "TakeUnadopt", "DropStored",
             "Downgrade", "WeakDrop", "StoreWeak", "Upgrade"}
 
